@@ -254,7 +254,7 @@ theorem sim_set {w : World} {j : JState} (h : RP w j) (x : Nat) (n : Int) (hx : 
     · simp only [Bool.not_eq_true] at hon
       simp only [hon, Bool.false_eq_true, if_false]
       have hcap := h0.cap
-      have hch : chunk = 32 := by decide
+      have hch : 0 < chunk := by decide
       have hlt : w.hbs.length < (if w.cap = 0 then chunk else if w.hbs.length = w.cap then w.cap + chunk else w.cap) := by
         split
         · omega
